@@ -255,8 +255,8 @@ func c17Violation(engine string, res *C17ReplicaResult) Violation {
 	if len(res.Crashes)+len(res.Restarts) > 0 {
 		msg += fmt.Sprintf(" crashes at blocks %v restarts after blocks %v", res.Crashes, res.Restarts)
 	}
-	if k := c17KindByName(res.Kind); k != nil && len(k.Fixed) > 0 {
-		// one fixed app.toml option: which engine produced the history says nothing about the cause
+	if k := c17KindByName(res.Kind); k != nil && (len(k.Fixed) > 0 || k.Base != nil) {
+		// fixed app.toml option(s): which engine produced the history says nothing about the cause
 		msg += " (history from engine " + engine + ")"
 		engine = "any"
 	}
@@ -454,8 +454,8 @@ func c17KindsFor(tier string, round, slot int, seed uint64) []*c17Kind {
 	out = append(out, &c17Kinds[rest[a]])
 	rest = append(rest[:a], rest[a+1:]...)
 	out = append(out, &c17Kinds[rest[rng.IntN(len(rest))]])
-	if round%3 == 1 {
-		out = append(out, &c17Kinds[c17BaseKinds+(round/3+slot)%c17SingleOptKinds])
+	if round%2 == 1 {
+		out = append(out, &c17Kinds[c17BaseKinds+(round/2+slot)%c17SingleOptKinds])
 	}
 	return out
 }
@@ -521,7 +521,7 @@ func c17CheckMain(args []string) int {
 	defer os.RemoveAll(work)
 
 	// a unit (one transcript and its replicas) takes 5-25 s: stop starting units early enough
-	reserve := 12.0
+	reserve := 17.0
 	if *tier == "thorough" {
 		reserve = 45
 	}
